@@ -163,6 +163,7 @@ def generate(unit, repo):
             if nvis:
                 counts["R5_visibility"] = nvis
             body = extract.apply_body_rules(body, counts, info["dropped"])
+            body = extract.strip_comments(body)  # R0
             for a, b in substs:
                 if a.startswith("re:"):
                     rx = re.compile(a[3:], re.S)
